@@ -5,7 +5,8 @@ lean/PV/Model/PyFile.lean; theorems: lean/PV/Props/C27.lean; driver: lean/Driver
 Every run: (1) correspondence — real SFTPClient/SFTPFile against a real SFTPServer over a loopback,
 backed by a temp dir, vs the model (return values, exception kinds, final file bytes, _pos/_realpos/
 _rbuffer/_wbuffer); (2) spec validation — the Lean PyFile spec vs real local files (unbuffered FileIO and
-default buffering; programs on which those two disagree are outside the spec); (3) oracle — real SFTPFile
+default buffering; outside append modes, programs on which those two disagree are outside the spec; in append
+modes the unbuffered file = the OS semantics is the reference); (3) oracle — real SFTPFile
 vs real local file, step by step and final contents.  A divergence is "known" iff the model run fired a
 listed defect tag at or before the diverging step; an untagged divergence is a VIOLATION.
 """
@@ -61,7 +62,14 @@ def run_case(ctx, loop, p, reply, req, witness_tag=None):
     for t, o in zip(t1, p["ops"]):
         if t.startswith("X:"):
             ctx.fail("unexpected-exception:" + t[2:], case, "op %s raised %s" % (L.op_token(o), t))
-    ambiguous = (oa, ta, ca) != (ob, tb, cb)
+    differ = (oa, ta, ca) != (ob, tb, cb)
+    # The reference is the UNBUFFERED local file (FileIO = the OS semantics, which is also what PyFile specifies).
+    # In append modes CPython's buffered objects keep their own position across O_APPEND writes and get it wrong
+    # (tell() past EOF, reads that continue where the last read stopped), so there the buffered run is only
+    # counted; in the other modes a disagreement between the two local flavours puts the program outside the spec.
+    ambiguous = differ and "a" not in p["mode"]
+    if differ:
+        ctx.dist("local-flavours-differ:" + ("append-mode(reference = unbuffered)" if "a" in p["mode"] else "other(skipped)"))
     ctx.dist("mode:" + p["mode"])
     ctx.dist("buffering:" + ("unbuffered" if p["bufsize"] <= 0 else "line" if p["bufsize"] == 1 else "sized"))
     ctx.dist("pipelined" if p["pipelined"] else "not-pipelined")
@@ -88,9 +96,7 @@ def run_case(ctx, loop, p, reply, req, witness_tag=None):
     if not predicted:
         ctx.disagree("SFTPFile vs model", case, repr(model), repr(impl))
     # ---- (2) spec validation PyFile vs real local files
-    if ambiguous:
-        ctx.dist("reference-ambiguous(raw vs buffered local file differ)")
-    else:
+    if not ambiguous:
         spec = (so, stoks, scont)
         local = (oa, ta, hx(ca) if ca is not None else "absent")
         if spec != local:
@@ -133,12 +139,13 @@ def run_case(ctx, loop, p, reply, req, witness_tag=None):
         sorted(sticky))
     if div[0] == "final-contents":
         detail = "final contents differ: remote %s local %s; tags %s" % (hx(c1 or b"")[:120], hx(ca or b"")[:120], sorted(sticky))
+    where = ("append-mode:" if "a" in p["mode"] else "") + div[0]
     if not predicted:
         # the model does not reproduce this run, so its tags explain nothing here
-        ctx.fail("unpredicted-divergence:" + div[0], case, detail + " (model disagrees with the real SFTPFile on this program)")
+        ctx.fail("unpredicted-divergence:" + where, case, detail + " (model disagrees with the real SFTPFile on this program)")
         return set()
     if not sticky:
-        ctx.fail("untagged-divergence:" + div[0], case, detail)
+        ctx.fail("untagged-divergence:" + where, case, detail)
     for t in sticky:
         ctx.fail("tag:" + t, case, detail)
     ctx.dist("divergent")
@@ -258,7 +265,8 @@ META = {
               "byte-exact correspondence of the model with a real SFTPClient/SFTPFile against a real SFTPServer over "
               "a loopback (return values, exception kinds, final file bytes, _pos/_realpos/_rbuffer/_wbuffer; modes "
               "r r+ w w+ a a+ x wx w+x, bufsize -1..65536, pipelined or not, MAX_REQUEST_SIZE patched down to force "
-              "request splitting; 35% disciplined and 20% targeted \"seek around the read-ahead window with a pending write\" programs "
+              "request splitting; 30% disciplined, 15% targeted \"seek around the read-ahead window with a pending write\" and 10% targeted "
+              "\"a+ read-ahead, append, read again without seeking\" programs "
               "= inside the theorem's hypothesis, 45% hostile), "
               "validation of the PyFile spec against real local files, and the oracle real-SFTPFile-vs-real-local-"
               "file; a divergence is known iff the model reproduces the run and fired a listed tag at or before it, "
@@ -270,9 +278,11 @@ META = {
              "modelling exclusion that is not a finding: truncate through a server handle that already served a READ "
              "(CPython BufferedRandom read-ahead inside StubSFTPServer may be stale; such runs are compared up to that "
              "point). Excluded from generation: truncate after close (C30), whence outside 0/1/2, offsets >= 2**63, "
-             "prefetch/readv (C28), >100 outstanding pipelined writes (C29/C30). Local reference = consensus of "
-             "unbuffered FileIO and default-buffered file objects; programs where those two disagree (a+ after "
-             "read/seek/write, append after truncate) are outside the spec. Exceptions compare as 'raises'. Trusted: "
+             "prefetch/readv (C28), >100 outstanding pipelined writes (C29/C30). Local reference = the unbuffered "
+             "FileIO object (OS semantics = what PyFile specifies), cross-checked against the default-buffered object: "
+             "outside append modes a disagreement between the two puts the program outside the spec (skipped, counted); "
+             "in append modes CPython's buffered objects mis-track the position after O_APPEND writes, so the unbuffered "
+             "file alone is the reference there (read after an append returns nothing). Exceptions compare as 'raises'. Trusted: "
              "Lean kernel + 3 axioms, harness/generators, tests/_stub_sftp.py, CPython file objects. Fixed in /repo "
              "through this check: fdf7955 (server append-mode offset cache), e29ecb5 (write after read-ahead), c5093b5 "
              "(read with unflushed write buffer), 8eeb0a7 (truncate ignores buffers); truncate_zeroes_file repaired "
